@@ -341,9 +341,11 @@ fn bulk_items(k: u64, v: u64) -> Vec<(u64, u64)> {
 /// Runs `ops` on a fresh map of the cell and compares every answer with a BTreeMap.
 /// `big` = Some(descriptor) when the ops were generated from (kind, n, seed): the case JSON then carries the descriptor.
 fn history(cx: &mut Ctx, family: &str, variant: u64, aux: u64, ops: &[(u64, u64, u64)], coq: bool, big: Option<&Value>) {
+    // histories of up to 1500 operations are spelled out in the case (the shrinker works on the list), longer ones are
+    // carried by their descriptor
     let cj = match big {
-        Some(d) => json!({"cell": family, "variant": variant, "aux": aux, "big": d}),
-        None => json!({"cell": family, "variant": variant, "aux": aux,
+        Some(d) if ops.len() > 1500 => json!({"cell": family, "variant": variant, "aux": aux, "big": d}),
+        _ => json!({"cell": family, "variant": variant, "aux": aux,
                        "ops": ops.iter().map(|(c, k, v)| json!([c, k, v])).collect::<Vec<_>>()}),
     };
     let made = guarded(|| make_cell(family, variant, aux));
@@ -784,6 +786,8 @@ pub fn run(args: &Args) {
         let cm = if n > 300 { 0 } else { seed % 2 };
         let cells: Vec<(&str, u64, u64)> = vec![
             ("zip", 0, seed % 2), ("zip", 1, 0), ("zip", 9, 1), ("zip", 16, 0), ("zipcap", n, 0), ("zipcap", n + 1, 0), ("zipdef", j as u64 % 4, 0),
+            // the capacities the library's own sizing helpers recommend for n elements
+            ("zipcap", zipora::hash_map::optimal_bucket_count(n as usize) as u64, 0), ("zipcap", zipora::hash_map::golden_ratio_next_size(n as usize) as u64, 0),
             ("gold", j as u64 % GOLD_VARIANTS, cm), ("gold", 1, 0), ("gold", 6, cm), ("gold", 15, 0),
             ("idx", j as u64 % IDX_VARIANTS, cm), ("idx", 0, 0), ("small", 0, 0), ("small_t", j as u64 % TYPES, 0),
             ("easy", j as u64 % EASY_VARIANTS, cm), ("easy", 2, 0), ("easy", 6, 0), ("str", j as u64 % 3, 0),
